@@ -94,8 +94,7 @@ static void runOne(const std::string &cfg) {
         // stable ids: the Resource of the router under test is m0 / c1, the auxiliary router's m2 / c3 (the replay looks at m0 / c1 only)
         auto &S = verif::Sched::I();
         std::unique_lock<decltype(S.G)> lk(S.G);
-        S.objId(&router.m_resource.m_mutex); S.objId(&router.m_resource.m_cv);
-        S.objId(&aux.m_resource.m_mutex); S.objId(&aux.m_resource.m_cv);
+        verif::registerResourceIds(S, router.m_resource); verif::registerResourceIds(S, aux.m_resource);
     }
     g_aux = &aux;
     auto auxSub = aux.subscribe(mkKey("bridge"), [] { if (t_bridge) t_bridge(); });
